@@ -330,8 +330,15 @@ func c10SetMSizeLowering(r *Run, fn *ssa.Function) {
 
 func c10ClientNegotiate(r *Run, cn *ssa.Function) {
 	fa := r.P.FA(cn)
-	c10SetMSizeLowering(r, cn)
-	sets := findCalls(cn, "invoke p9p.Channel.SetMSize")
+	var sets []*ssa.Call
+	setFn := map[*ssa.Call]*ssa.Function{}
+	for _, f := range r.P.withHelpers(cn, 2) {
+		c10SetMSizeLowering(r, f)
+		for _, c := range findCalls(f, "invoke p9p.Channel.SetMSize") {
+			sets = append(sets, c)
+			setFn[c] = f
+		}
+	}
 	r.Floor("msize-only-lowered", len(sets), 1, "SetMSize call in clientnegotiate")
 	// Tversion.MSize ≡ uint32(ch.MSize())
 	n := 0
@@ -358,8 +365,8 @@ func c10ClientNegotiate(r *Run, cn *ssa.Function) {
 	r.Floor("tversion-msize", n, 1, "Tversion literal with MSize")
 	// the adopted msize is the server's answer: SetMSize argument derives from the Rversion's MSize field
 	for _, sc := range sets {
-		s := fa.Sym(sc.Call.Args[0])
-		r.Check(symMentions(s, "p9p.MessageRversion") && symMentions(s, ".MSize"), "msize-only-lowered", "clientnegotiate: adopted msize is the Rversion's MSize", sc.Pos(),
+		s := r.P.FA(setFn[sc]).Sym(sc.Call.Args[0])
+		r.Check(fieldOfTypedValue(r.P.FA(setFn[sc]), sc.Call.Args[0], "MessageRversion", "MSize", 0), "msize-only-lowered", "clientnegotiate: adopted msize is the Rversion's MSize", sc.Pos(),
 			"the client adopts "+s.K+" rather than the server's answer")
 	}
 	// success only after both I/O steps succeeded and on the MessageRversion clause
@@ -467,4 +474,32 @@ func dischargeBoundsWithPre(r *Run, fn *ssa.Function, rule string, pre []Fact) {
 			r.Bad(rule, ob.Key, ob.In.Pos(), "cannot prove "+bad, factStrings(facts)...)
 		}
 	}
+}
+
+// fieldOfTypedValue: v is (a width conversion of) the field `field` of a value of the p9p type tname.
+func fieldOfTypedValue(fa *FA, v ssa.Value, tname, field string, depth int) bool {
+	if depth > 6 {
+		return false
+	}
+	switch x := v.(type) {
+	case *ssa.Convert:
+		return fieldOfTypedValue(fa, x.X, tname, field, depth+1)
+	case *ssa.ChangeType:
+		return fieldOfTypedValue(fa, x.X, tname, field, depth+1)
+	case *ssa.Field:
+		return isP9P(x.X.Type(), tname) && fieldName(x.X.Type(), x.Field) == field
+	case *ssa.UnOp:
+		if x.Op != token.MUL {
+			return false
+		}
+		if f, ok := x.X.(*ssa.FieldAddr); ok {
+			return isP9P(f.X.Type(), tname) && fieldName(f.X.Type(), f.Field) == field
+		}
+		if a, path := rootAlloc(x.X); a != nil && fa.local[a] {
+			if st, _, exact := fa.localDef(a, path, x); st != nil && exact {
+				return fieldOfTypedValue(fa, st.Val, tname, field, depth+1)
+			}
+		}
+	}
+	return false
 }
